@@ -147,6 +147,67 @@ func (l *loop) exec(args [][]byte) (raw []byte, v model.Val, status string) {
 	}
 }
 
+// execSlow: the proposal is not committed at once - ten seconds of the virtual clock pass first
+// (a leaderless moment, a slow fsync, a partition) and whatever the connection handler then does on
+// its own timers happens: everything it hands over on proposeC meanwhile is committed behind the
+// first proposal, as raft would.  Only when some timer of the instrumented packages is pending
+// (never on a tree whose handler has no time limit) - otherwise this is exec.
+func (l *loop) execSlow(args [][]byte) (raw []byte, v model.Val, status string, extra int) {
+	l.conn.Send(model.EncodeCommand(args))
+	deadline := time.Now().Add(h.Patience)
+	for {
+		select {
+		case p := <-l.proposeC:
+			l.idx++
+			ents := []raftpb.Entry{{Type: raftpb.EntryNormal, Index: l.idx, Term: 1, Data: p.ToBytes()}}
+			if w := rt.CurWorld(); len(w.PendingTimers()) > 0 {
+				w.Advance(int64(10 * time.Second))
+				until := time.Now().Add(300 * time.Millisecond)
+				for time.Now().Before(until) {
+					select {
+					case q := <-l.proposeC:
+						l.idx++
+						ents = append(ents, raftpb.Entry{Type: raftpb.EntryNormal, Index: l.idx, Term: 1, Data: q.ToBytes()})
+						extra++
+					case <-time.After(2 * time.Millisecond):
+					}
+					if extra > 0 && len(w.PendingTimers()) == 0 {
+						break
+					}
+				}
+			}
+			l.log = append(l.log, ents...)
+			done, ok := l.rc.VerifPublish(ents)
+			if !ok {
+				return nil, model.Val{}, "publish-failed", extra
+			}
+			if done != nil {
+				select {
+				case <-done:
+				case <-time.After(h.Patience):
+					return nil, model.Val{}, "apply-timeout", extra
+				}
+			}
+			raw, v, status = l.conn.TakeReply(h.Patience)
+			return raw, v, status, extra
+		case <-time.After(200 * time.Microsecond):
+			if len(l.conn.Output()) > 0 {
+				raw, v, status = l.conn.TakeReply(h.Patience)
+				return raw, v, status, extra
+			}
+			if l.conn.Closed() {
+				return nil, model.Val{}, "closed", extra
+			}
+			if rt.HasFreePanics() {
+				return nil, model.Val{}, "panic", extra
+			}
+			if time.Now().After(deadline) {
+				return nil, model.Val{}, "timeout", extra
+			}
+		}
+	}
+}
+
 // execDuringReplay: the node has just restarted (l is a fresh loop: new Manager, new callback table,
 // new connection handler) and its log - old, the entries of its previous life - has not been
 // re-applied yet.  The client's command is turned into a proposal first (its handler now waits for
@@ -581,6 +642,76 @@ func c14Worker(tb []byte, progress func()) []byte {
 			}
 		}
 		bl.close()
+		a.close()
+	}
+	// slow commit: every single-command program once more with ten seconds of virtual time between
+	// proposal and commit (see execSlow), followed by a reader of the same key family: a command that
+	// is slow, not lost, still means what it means on a standalone server
+	for pi, prog := range progs {
+		if len(prog) != 2 || pi%t.Of != t.Shard || len(prog[0]) == 0 || len(prog[1]) == 0 {
+			continue
+		}
+		if cut("slow") {
+			continue
+		}
+		res.Programs++
+		l := newLoop()
+		a := newAlone()
+		okSeed := true
+		for _, c := range c14Seed {
+			_, _, sa := a.exec(h.B(c...))
+			_, _, sl := l.exec(h.B(c...))
+			if sa != "ok" || sl != "ok" {
+				okSeed = false
+			}
+		}
+		name := strings.ToLower(prog[0][0]) + "+slow"
+		add := func(kind, detail string) {
+			shape := "slow:" + c14Shape(prog[0], tmplOf[pi])
+			k := kind + "|" + name + "|" + shape
+			if seen[k] {
+				return
+			}
+			seen[k] = true
+			res.Viol = append(res.Viol, c14Viol{Kind: kind, Cmd: name, Shape: shape, Detail: detail, Program: prog})
+		}
+		if okSeed && len(rt.TakeFreePanics()) == 0 {
+			for ci, c := range prog {
+				_, want, sa := a.exec(h.B(c...))
+				var got model.Val
+				var sl string
+				extra := 0
+				if ci == 0 {
+					_, got, sl, extra = l.execSlow(h.B(c...))
+				} else {
+					_, got, sl = l.exec(h.B(c...))
+				}
+				slow("slow", sl)
+				res.Commands++
+				if ps := rt.TakeFreePanics(); len(ps) > 0 {
+					add("panic", fmt.Sprintf("slow commit %q: panic %s in %s (cluster node goroutine)", prog, ps[0].Value, ps[0].Func))
+					break
+				}
+				if sa != "ok" {
+					break
+				}
+				if sl != "ok" {
+					add("cluster-slow", fmt.Sprintf("slow commit %q: %q committed 10 s after it was proposed (%d more proposals handed over meanwhile): %s (standalone: %s)", prog, c, extra, sl, want))
+					break
+				}
+				if !sameReply(strings.ToLower(c[0]), want, got) {
+					add("reply-differs", fmt.Sprintf("slow commit %q: %q (first command committed 10 s after it was proposed, %d more proposals handed over meanwhile) replies %s, standalone %s", prog, c, extra, got, want))
+				}
+				ca := h.CanonOf(a.mgr.CurrentDB.VerifDump())
+				cl := h.CanonOf(l.mgr.CurrentDB.VerifDump())
+				if d := model.DiffCanon(ca, cl, 2000); d != "" {
+					add("state-differs", fmt.Sprintf("slow commit %q: after %q the keyspaces differ (model=standalone, implementation=cluster node; %d more proposals were handed over while the first was uncommitted): %s", prog, c, extra, d))
+					break
+				}
+				res.Distinct++
+			}
+		}
+		l.close()
 		a.close()
 	}
 	// restart: the node is restarted after the seed and the first command of a two-command program
